@@ -17,10 +17,12 @@ def program(a, capture=None):
     # in the arms for `unsafe fn` the user's fragments land in the body of an unsafe fn: operations that need an unsafe context (here: reading
     # through a raw pointer) are well-typed there without a block of their own (edition 2021)
     ua = "std::ptr::read(&a as *const u64)" if a["m_unsafe"] else "a"
-    if a["when"]: opts.append(f"when: {ua} == 7 && b == 1")
+    # the `when` expression takes a lock for the time of the test (a temporary with a destructor, created in the condition itself): it must be
+    # released before `assign` / `returns` run and before a rejection panics (TEMPS line: held = evaluations of assign/returns that found it taken)
+    if a["when"]: opts.append(f"when: gate_ok(&*GATE.lock().unwrap_or_else(|e| e.into_inner()), {ua}, b)")
     # the assign fragment declares a local that SHADOWS the argument and an RAII local: neither may be visible / alive when `returns` is evaluated
-    if a["assign"]: opts.append(f"assign: {{ ASSIGNS.fetch_add(1, SeqCst); SEEN.store({ua} as usize, SeqCst); A_STAMP.store(CLOCK.fetch_add(1, SeqCst) + 1, SeqCst); let _alive = Alive::new(); let a = a ^ (1u64 << 40); std::hint::black_box(a); }}")
-    if a["returns"]: opts.append(f"returns: {{ EVALS.fetch_add(1, SeqCst); R_STAMP.store(CLOCK.fetch_add(1, SeqCst) + 1, SeqCst); 9000 + {ua} + EVALS.load(SeqCst) as u64 + 1_000_000 * ALIVE.load(SeqCst) as u64 }}")
+    if a["assign"]: opts.append(f"assign: {{ HELD.fetch_add(GATE.try_lock().is_err() as usize, SeqCst); ASSIGNS.fetch_add(1, SeqCst); SEEN.store({ua} as usize, SeqCst); A_STAMP.store(CLOCK.fetch_add(1, SeqCst) + 1, SeqCst); let _alive = Alive::new(); let a = a ^ (1u64 << 40); std::hint::black_box(a); }}")
+    if a["returns"]: opts.append(f"returns: {{ HELD.fetch_add(GATE.try_lock().is_err() as usize, SeqCst); EVALS.fetch_add(1, SeqCst); R_STAMP.store(CLOCK.fetch_add(1, SeqCst) + 1, SeqCst); 9000 + {ua} + EVALS.load(SeqCst) as u64 + 1_000_000 * ALIVE.load(SeqCst) as u64 }}")
     if a["times"]: opts.append(f"times: {N}")
     cap_decl = cap_print = ""
     if capture:
@@ -65,7 +67,10 @@ use injectorpp::interface::injector::*;
 use std::io::Write;
 use std::panic::{{catch_unwind, AssertUnwindSafe}};
 use std::sync::atomic::{{AtomicUsize, Ordering::SeqCst}};
-{cap_decl}static ASSIGNS: AtomicUsize = AtomicUsize::new(0);
+{cap_decl}static GATE: std::sync::Mutex<u64> = std::sync::Mutex::new(0);
+static HELD: AtomicUsize = AtomicUsize::new(0);
+fn gate_ok(g: &u64, a: u64, b: u64) -> bool {{ *g == 0 && a == 7 && b == 1 }}
+static ASSIGNS: AtomicUsize = AtomicUsize::new(0);
 static EVALS: AtomicUsize = AtomicUsize::new(0);
 static SEEN: AtomicUsize = AtomicUsize::new(0);
 static ALIVE: AtomicUsize = AtomicUsize::new(0);
@@ -116,7 +121,8 @@ fn main() {{
     println!("{{pfx}}EXIT {{}}", match r {{ Ok(()) => "normal".to_string(), Err(e) => class(&msg(&e)).to_string() }});
     }}
     let after = catch_unwind(|| call(7));
-    println!("AFTER {{}}", if after.is_ok() {{ "original" }} else {{ "panics" }});{cap_print}{phase2}
+    println!("AFTER {{}}", if after.is_ok() {{ "original" }} else {{ "panics" }});
+    println!("TEMPS held={{}} poisoned={{}}", HELD.load(SeqCst), GATE.is_poisoned());{cap_print}{phase2}
 }}
 '''
 
